@@ -173,7 +173,10 @@ where
         // SVD of L2'*L1,
         let tmp = &mut f.workmat1;
         tmp.mul(&L2.t(), L1, T::one(), T::zero());
-        f.SVD.factor(tmp).expect("SVD error");
+        // bail in the same way if the SVD fails (non-finite entries)
+        if f.SVD.factor(tmp).is_err() {
+            return false;
+        }
 
         // assemble λ (diagonal), R and Rinv.
         f.λ.copy_from(&f.SVD.s);
